@@ -403,9 +403,10 @@ def main(prop_id, tier, seed, runs=None, jobs=None, wall=None):
     #      recorded rates explain, some other defect is hiding behind a finding's pattern: reported as a violation
     #      (replay = the smallest matched case).  Threshold = max(3x, +10 sigma + 10) of the expected count.
     raw_viol = len(agg.violations) + agg.extra.get("violations_not_kept", 0)
-    exp = sum(f.get("expected_rate", {}).get(prop_id, 0.0) for f in open_findings) * agg.evaluations
+    n_cases = sum(agg.families.values())        # generate() calls (a C07 case = one base run with all its crash runs)
+    exp = sum(f.get("expected_rate", {}).get(prop_id, 0.0) for f in open_findings) * n_cases
     limit = max(3 * exp, exp + 10 * (exp ** 0.5) + 10)
-    rate_info = {"raw_violations": raw_viol, "expected_known": round(exp, 2), "limit": round(limit, 1)}
+    rate_info = {"cases": n_cases, "raw_violations": raw_viol, "expected_known": round(exp, 2), "limit": round(limit, 1)}
     if open_findings and raw_viol > limit and not reported:
         matched = [(len(m.get("plan", [])), i, m, mv) for i, c, v, m, mv in viols if mv is not None and findings.match(prop_id, m, mv)]
         if matched:
